@@ -591,7 +591,8 @@ impl World {
             self.trace.push(vec![9, t, idx as i128, 4, sid, did, size]);
             return;
         }
-        if self.rng.chance(replay + spoof) && self.stored.len() < 64 {
+        let garbage = p.get(k::GARBAGE, 0);
+        if self.rng.chance((replay + spoof + garbage).min(500)) && self.stored.len() < 64 {
             self.stored.push((src, dst, data.clone(), origin));
         }
         let fair = self.p.get(k::FAIR_RUN, 0);
@@ -658,7 +659,63 @@ impl World {
         }
         if self.rng.chance(garbage) {
             let mut data: Vec<u8>;
-            if !self.stored.is_empty() && self.rng.chance(600) {
+            let mut forged: Option<(SocketAddr, SocketAddr)> = None;
+            if !self.stored.is_empty() && self.rng.chance(250) {
+                // structure-aware forgeries built from the cleartext of a genuine long-header
+                // datagram: Version Negotiation, Retry with a bogus integrity tag, and a
+                // short-header datagram ending in a random "reset token"
+                let i = self.rng.below(self.stored.len() as u64) as usize;
+                let g = self.stored[i].2.clone();
+                let (gsrc, gdst) = (self.stored[i].0, self.stored[i].1);
+                let mut out: Vec<u8> = Vec::new();
+                if g.len() > 7 && g[0] & 0x80 != 0 {
+                    let dl = g[5] as usize;
+                    if 6 + dl < g.len() {
+                        let dcid = g[6..6 + dl].to_vec();
+                        let sl = g[6 + dl] as usize;
+                        if 7 + dl + sl <= g.len() {
+                            let scid = g[7 + dl..7 + dl + sl].to_vec();
+                            match self.rng.below(2) {
+                                0 => {
+                                    // Version Negotiation towards the sender of `g`
+                                    out.push(0x80 | (self.rng.below(128) as u8));
+                                    out.extend_from_slice(&[0, 0, 0, 0]);
+                                    out.push(scid.len() as u8);
+                                    out.extend_from_slice(&scid);
+                                    out.push(dcid.len() as u8);
+                                    out.extend_from_slice(&dcid);
+                                    out.extend_from_slice(&[0x0a, 0x1a, 0x2a, 0x3a, 0xff, 0, 0, 0x1d]);
+                                }
+                                _ => {
+                                    // Retry towards the sender of `g` with a made-up tag
+                                    out.push(0xf0 | (self.rng.below(16) as u8));
+                                    out.extend_from_slice(&g[1..5]);
+                                    out.push(scid.len() as u8);
+                                    out.extend_from_slice(&scid);
+                                    out.push(8);
+                                    out.extend_from_slice(&[0xEE; 8]);
+                                    out.extend_from_slice(&[0x77; 24]);
+                                    for _ in 0..16 {
+                                        out.push(self.rng.below(256) as u8);
+                                    }
+                                }
+                            }
+                            forged = Some((gdst, gsrc));
+                        }
+                    }
+                } else if g.len() > 30 {
+                    // stateless-reset look-alike: keep the header byte and CID, random rest
+                    out.extend_from_slice(&g[..1 + 8.min(g.len() - 1)]);
+                    for _ in 0..(30 + self.rng.below(40)) {
+                        out.push(self.rng.below(256) as u8);
+                    }
+                    forged = Some((gsrc, gdst));
+                }
+                data = out;
+                if forged.is_none() {
+                    data = (0..40).map(|_| self.rng.below(256) as u8).collect();
+                }
+            } else if !self.stored.is_empty() && self.rng.chance(600) {
                 let i = self.rng.below(self.stored.len() as u64) as usize;
                 data = self.stored[i].2.clone();
                 match self.rng.below(4) {
@@ -693,7 +750,9 @@ impl World {
                 data = (0..n).map(|_| self.rng.below(256) as u8).collect();
             }
             let to_server = self.rng.chance(700);
-            let (src, dst) = if to_server {
+            let (src, dst) = if let Some(f) = forged {
+                f
+            } else if to_server {
                 (if self.rng.chance(500) { self.eps[0].addr } else { SocketAddr::new(IpAddr::V4(Ipv4Addr::new(10, 6, 6, 6)), 6666) }, self.eps[1].addr)
             } else {
                 (self.eps[1].addr, self.eps[0].addr)
